@@ -120,6 +120,15 @@ MUTANTS = [
      "def e2h(v):",
      "def e2h(v):\n    if isinstance(v, np.ndarray) and v.ndim == 2 and v.dtype == np.float64 and v.shape[1] > 2:\n        v[:, -1] = v[:, -1] * 1.0 + 0.0\n        v[0, 0] += 0.0 if v.shape[1] < 4 else 1e-9",
      'e2h perturbs a float64 point-set argument with 4 or more columns'),
+    ('c17_rotx_memoised', 'C17', 'spatialmath/base/transforms3d.py',
+     "def rotx(theta, unit=\"rad\"):",
+     "import functools\n\n@functools.lru_cache(maxsize=64)\ndef rotx(theta, unit=\"rad\"):",
+     'rotx memoises its result array: a caller writing into one result corrupts later results'),
+    ('c17_identity_cached', 'C17', 'spatialmath/pose3d.py',
+     "    @staticmethod\n    def _identity():\n        return np.eye(4)\n",
+     "    @staticmethod\n    def _identity():\n        return _EYE4\n",
+     'SE3() hands out one shared module-level identity array',
+     ("class SE3(SO3):", "_EYE4 = np.eye(4)\n\nclass SE3(SO3):")),
 ]
 
 
